@@ -361,7 +361,14 @@ func isoPackage(cfg *nfpm.Config, f string) isoResult { return isoPackageNamed(c
 
 // isoPackageNamed is the CLI's packaging step; with askName it first asks for the conventional file name on the
 // very Info it then packages – what `nfpm package` does when the target is a directory or omitted.
-func isoPackageNamed(cfg *nfpm.Config, f string, askName bool) isoResult {
+func isoPackageNamed(cfg *nfpm.Config, f string, askName bool) (res isoResult) {
+	// a panic inside the packaging code (shared state corrupted by a concurrent packaging, say) is an outcome to
+	// compare and report with its input, not a reason to lose the run
+	defer func() {
+		if r := recover(); r != nil {
+			res = isoResult{Err: fmt.Sprintf("panic while packaging: %v", r)}
+		}
+	}()
 	info, err := cfg.Get(f)
 	if err != nil {
 		return isoResult{Err: "get: " + err.Error()}
